@@ -13,7 +13,8 @@ THEOREMS = ['C10_oneBatch', 'C10_counterOnlyThere', 'C10_support']
 RUN_THEOREMS = ['C10_noBatchBeyond', 'C10_budget', 'C10_success']
 MODULE = [('NautilusVerif.Properties.C10', THEOREMS), ('NautilusVerif.Properties.C10Run', RUN_THEOREMS),
           ('NautilusVerif.Properties.CoreRun', ['Run_phase', 'C10_run_budget', 'C10_run_noBatchBeyond', 'C10_run_return', 'C10_run_fill']),
-          ('NautilusVerif.Properties.C05Tie', ['C05_run_skeleton'])]
+          ('NautilusVerif.Properties.C05Tie', ['C05_run_skeleton']),
+          ('NautilusVerif.Properties.CoreTie', ['Core_tie_sampleShell', 'Core_tie_evaluateLikelihood', 'Core_tie_addSamples'])]
 FILES = ['nautilus/sampler.py']
 INVARIANTS = ['aligned', 'run']
 
@@ -22,7 +23,7 @@ def run(chk):
     chk.extra['source_digest'] = common.source_digest(FILES)
     import gen_c05
     text5, _ = gen_c05.generate(common.REPO)
-    chk.prove(MODULE, None, {'NautilusVerif/Generated/C05.lean': text5})
+    chk.prove(MODULE, None, {'NautilusVerif/Generated/CoreSrc.lean': __import__('gen_core').generate(common.REPO)[0], 'NautilusVerif/Generated/C05.lean': text5})
     if chk.tier == 'thorough':
         chk.leanchecker([m for m, _ in MODULE])
     results = corechecks.run_all(chk.tier, chk.seed)
